@@ -90,8 +90,15 @@ RunTest ==
 
 Advance == IF k < Len(Cur) THEN k' = k + 1 /\ pc' = "pick" ELSE k' = k /\ pc' = "validate"
 
+\* one script for the whole document: a command that ends the shell ends the script; scrut finds fewer results than test
+\* cases and gives up (execution error)
+OnScriptExit ==
+    /\ pc = "handle" /\ status = "code" /\ ScriptCutAt(sc, d, k)
+    /\ exit' = 1 /\ pc' = "done"
+    /\ UNCHANGED <<sc, d, k, clock, lim, isGlobal, status, outs, res, ran, wall>>
+
 OnCode ==
-    /\ pc = "handle" /\ status = "code" /\ CurTc.code # SkipCode(sc, d, CurTc)
+    /\ pc = "handle" /\ status = "code" /\ CurTc.code # SkipCode(sc, d, CurTc) /\ ~ScriptCutAt(sc, d, k)
     /\ outs' = AppendAt(outs, d, "code")
     /\ Advance
     /\ UNCHANGED <<sc, d, clock, lim, isGlobal, status, res, ran, wall, exit>>
@@ -150,7 +157,7 @@ Finish ==
     /\ pc' = "done"
     /\ UNCHANGED <<sc, d, k, clock, lim, isGlobal, status, outs, res, ran, wall>>
 
-Next == StartDoc \/ PickLimit \/ RunTest \/ OnCode \/ OnSkip \/ OnTimeout \/ OnUnknown \/ OnDetached
+Next == StartDoc \/ PickLimit \/ RunTest \/ OnScriptExit \/ OnCode \/ OnSkip \/ OnTimeout \/ OnUnknown \/ OnDetached
         \/ ValidateDoc \/ EndDoc \/ Finish
 
 -----------------------------------------------------------------------------
